@@ -7,7 +7,7 @@ CONSTANT EpochIds = {1, 2, 3, 4, 5}
 CONSTANT MaxSteps = 5
 CONSTANT Ops <- SessLifeOps
 CONSTANT SessChecksDisabled = TRUE
-CONSTANT RefreshUpserts = TRUE
+CONSTANT RefreshUpserts = FALSE
 CONSTANT InFlightOps = {}
 SPECIFICATION Spec
 INVARIANT BehaviourExport
